@@ -88,6 +88,11 @@ let op (args : string list) : string =
        | CoOk a' -> cur_a := Some a'; cur_t := None; "ok"
        | CoOOM (a', t') -> cur_a := Some a'; cur_t := Some t'; "oom"
        | CoPanic -> "panic")
+    | ["commitfail"; extra] ->
+      (match commit_fail_step a (gett ()) (tok_bool extra) with
+       | CoOk a' -> cur_a := Some a'; cur_t := None; "ok"
+       | CoOOM (a', t') -> cur_a := Some a'; cur_t := Some t'; "oom"
+       | CoPanic -> "panic")
     | ["rollback"] -> cur_a := Some (rollback a (gett ())); cur_t := None; "ok"
     | _ -> failwith "bad alloc op") in
   res ^ " ; " ^ state_string ()
